@@ -22,6 +22,18 @@ impl TraitFn {
         &self.entrait_sig.sig
     }
 
+    /// A `#[cfg]` on a function of a module or impl block also applies
+    /// to the trait method generated from it, and to its delegating implementation.
+    pub fn with_cfg_attrs_of(mut self, input_fn: &crate::input::InputFn) -> Self {
+        self.attrs = input_fn
+            .fn_attrs
+            .iter()
+            .filter(|attr| attr.path().is_ident("cfg"))
+            .cloned()
+            .collect();
+        self
+    }
+
     pub fn opt_dot_await(&self, span: Span) -> Option<impl quote::ToTokens> {
         if self.originally_async {
             Some(TokenPair(syn::token::Dot(span), syn::token::Await(span)))
